@@ -122,7 +122,9 @@ def c19 (op : String) (args : List String) (impl : String) : Verdict :=
     | some auth, some peer, some ntr, some user, some pw =>
       let spec := Rfc2759.generateAuthenticatorResponse P19 auth peer ntr user pw
       let model := showRes String.ofList (Model.MSCHAP.generateAuthenticatorResponse P19 auth peer ntr user pw)
-      mkDom (spec.isSome && ntr.length == 24) impl model
+      -- (any NT-Response length: the function hashes what it is given, see C19.nt_response_size_is_checked_by_makeKey_only
+      -- and DESIGN §5c - the formula of RFC 2759 §8.7 is defined for every octet string)
+      mkDom spec.isSome impl model
         [noCrash impl,
          ("rfc2759_8_7_authenticator_response", match spec with | some s => impl == s!"ok {String.ofList s}" | none => true),
          ("S_equals_plus_40_upper_case_hex_digits", authRespShape impl)]
@@ -130,7 +132,7 @@ def c19 (op : String) (args : List String) (impl : String) : Verdict :=
   | "masterkey", [phh, ntr] =>
     match unhex phh, unhex ntr with
     | some phh, some ntr =>
-      mkDom (phh.length == 16 && ntr.length == 24) impl (okHex (Model.MSCHAP.getMasterKey P19 phh ntr))
+      mkDom true impl (okHex (Model.MSCHAP.getMasterKey P19 phh ntr))
         [noCrash impl, ("rfc3079_3_4_master_key", impl == okHex (Rfc3079.getMasterKey P19 phh ntr)),
          ("master_key_is_16_octets", (implBytes impl).length == 16)]
     | _, _ => bad "hex"
